@@ -1,4 +1,5 @@
 import TV.Proofs.Publisher
+import TV.Proofs.MonitorPub
 /-!
 # C06 — Publication delivers each accepted message exactly once per subscriber
 
@@ -35,5 +36,16 @@ theorem C06_publish_reaches_every_subscriber :
     (x.filter.accepts m = true ∧ ∃ d ∈ s'.pending, d.uid = s.nextUid ∧ d.sub = x.id ∧ d.msg = m) ∨
     (x.filter.accepts m = false ∧ (s.nextUid, x.id, Outcome.filtered) ∈ s'.outcomes) := Proofs.C06_publish_reaches_every_subscriber
 
+
+/-! ### the model passes the monitors the driver applies to the implementation
+
+`mstOf s` is the bookkeeping the driver has recorded from the script (`subAt` / `closedAt` are ghost fields of the model),
+`obsOf s` the model's own observation.  Side conditions = what the harness guarantees: published values are pairwise
+distinct (the clauses compare values), and only the short timeout (1 tick) can have fired. -/
+theorem C06_model_passes_monitor_deliveries (s : St) (h : Reach s) (hd : MonSound.distinctPubs s) :
+    Mon.deliveriesOK (MonSound.mstOf s) (Driver.Pub.obsOf s) = [] := MonSound.deliveriesOK_sound h hd
+
+theorem C06_model_passes_monitor_ledger (s : St) (h : Reach s) (ht : MonSound.timeoutsOK s) :
+    Mon.ledgerOK (MonSound.mstOf s) (Driver.Pub.obsOf s) = [] := MonSound.ledgerOK_sound h ht
 
 end TV.C06
